@@ -31,6 +31,52 @@ type totalEvent struct {
 	TimedOut bool    `json:"timedout"`
 	Err      bool    `json:"err"`
 	HasMat   bool    `json:"hasmat"`
+	// tables of strconv's verdicts on the tokens of the input (number syntax is strconv's job, DESIGN.md section 8)
+	Floats [][]int `json:"floats"` // tokens ParseFloat(tok, 64) accepts
+	FZero  [][]int `json:"fzero"`  // ... of which those that denote zero
+	U8     [][]any `json:"u8"`     // tokens ParseUint(tok, 0, 8) accepts, with their value
+	Full   bool    `json:"full"`   // bytes holds the whole input (drift comparison possible)
+}
+
+// numberTables: every maximal run of bytes between the structural separators of the text formats, classified by strconv.
+func numberTables(data []byte) (floats, fzero [][]int, u8 [][]any) {
+	floats, fzero, u8 = [][]int{}, [][]int{}, [][]any{}
+	seen := map[string]bool{}
+	add := func(tok []byte) {
+		if len(tok) == 0 || len(tok) > 40 || seen[string(tok)] {
+			return
+		}
+		seen[string(tok)] = true
+		if x, err := strconv.ParseFloat(string(tok), 64); err == nil {
+			floats = append(floats, ints(tok))
+			if x == 0 {
+				fzero = append(fzero, ints(tok))
+			}
+		}
+		if v, err := strconv.ParseUint(string(tok), 0, 8); err == nil {
+			u8 = append(u8, []any{ints(tok), int(v)})
+		}
+	}
+	for _, seps := range []string{"\t\n\r", "\t\n\r,", "\t\n\r:", "(),:; \t\n\r"} {
+		start := 0
+		for i := 0; i <= len(data); i++ {
+			if i == len(data) || bytes.IndexByte([]byte(seps), data[i]) >= 0 {
+				add(data[start:i])
+				start = i + 1
+			}
+		}
+	}
+	// tag values: everything after the second colon of a tab-separated field
+	for _, line := range bytes.Split(data, []byte("\n")) {
+		for _, f := range bytes.Split(bytes.TrimSuffix(line, []byte("\r")), []byte("\t")) {
+			if c1 := bytes.IndexByte(f, ':'); c1 >= 0 {
+				if c2 := bytes.IndexByte(f[c1+1:], ':'); c2 >= 0 {
+					add(f[c1+1+c2+1:])
+				}
+			}
+		}
+	}
+	return
 }
 
 type fixCase struct {
@@ -220,11 +266,13 @@ func totalDrive(args []string) error {
 				timedOut = true
 				res.items = []gItem{}
 			}
-			tw.emit(totalEvent{Sid: sid, Fmt: fd.name, Op: "decode", Bytes: ints(data[:min(len(data), 2000)]), Items: res.items, Rec: none, Back: []gItem{},
-				Panic: res.panicked, Capped: res.capped, TimedOut: timedOut})
+			dev := totalEvent{Sid: sid, Fmt: fd.name, Op: "decode", Bytes: ints(data[:min(len(data), 2000)]), Items: res.items, Rec: none, Back: []gItem{},
+				Panic: res.panicked, Capped: res.capped, TimedOut: timedOut, Full: len(data) <= 2000}
+			dev.Floats, dev.FZero, dev.U8 = numberTables(data[:min(len(data), 2000)])
+			tw.emit(dev)
 			for _, f := range res.fixes {
 				tw.emit(totalEvent{Sid: sid, Fmt: fd.name, Op: "fixpoint", Bytes: ints(data[:min(len(data), 2000)]), Items: []gItem{}, Rec: f.rec, Back: f.back,
-					WErr: f.werr, Panic: f.panic})
+					WErr: f.werr, Panic: f.panic, Floats: [][]int{}, FZero: [][]int{}, U8: [][]any{}})
 			}
 		}
 	}
@@ -250,7 +298,7 @@ func totalDrive(args []string) error {
 			d = make([]byte, r.Intn(50))
 			r.Read(d)
 		}
-		ev := totalEvent{Sid: sid, Fmt: "ncbi", Op: "ncbi", Bytes: ints(d), Items: []gItem{}, Rec: none, Back: []gItem{}}
+		ev := totalEvent{Sid: sid, Fmt: "ncbi", Op: "ncbi", Bytes: ints(d), Items: []gItem{}, Rec: none, Back: []gItem{}, Floats: [][]int{}, FZero: [][]int{}, U8: [][]any{}}
 		ev.Panic, _ = catch(func() {
 			m, err := smtext.ReadNCBI(bytes.NewReader(d))
 			ev.Err, ev.HasMat = err != nil, m != nil
